@@ -8,7 +8,22 @@ mod l1;
 mod sched;
 mod store;
 
+/// a logger that accepts every level and discards what it is given: with it installed, the arguments of
+/// every `log::debug!` / `log::trace!` in the code under test are evaluated, as they are when an operator
+/// runs the server with RUST_LOG=debug
+struct Discard;
+impl log::Log for Discard {
+    fn enabled(&self, _m: &log::Metadata) -> bool { true }
+    fn log(&self, r: &log::Record) { let _ = format!("{}", r.args()); }
+    fn flush(&self) {}
+}
+static DISCARD: Discard = Discard;
+
 fn main() {
+    if std::env::var("TSS_LOG").is_ok() {
+        let _ = log::set_logger(&DISCARD);
+        log::set_max_level(log::LevelFilter::Trace);
+    }
     let args: Vec<String> = std::env::args().collect();
     let seed: u64 = std::env::var("VERIF_SEED").ok().and_then(|s| s.parse().ok()).unwrap_or(1);
     match args.get(1).map(|s| s.as_str()) {
